@@ -4,3 +4,5 @@
 def extract_all():
     from . import claw
     claw.extract()
+    from . import gen
+    gen.extract()
